@@ -979,7 +979,7 @@ def c20(tier):
         rep.violation("TLC: %s violated in Migrate.tla" % res["violated"], {"kind": "model", "cfg": "MC_Migrate", "tlc_tail": res["out"][-5000:]})
     else:
         log("[tlc] MC_Migrate: %d distinct states: ok" % res["distinct"])
-    behs, gen, _ = vcore.tlc_simulate("Migrate.tla", os.path.join(vcore.SPEC, "GEN_Migrate.cfg"), 500 if thorough else 70, 12, SEED)
+    behs, gen, _ = vcore.tlc_simulate("Migrate.tla", os.path.join(vcore.SPEC, "GEN_Migrate.cfg"), 1500 if thorough else 300, 12, SEED)
     rep.transitions += gen
     generic_replay(rep, "migrate-replay", behs, {"seed": SEED}, "c20", "migrate-replay")
     return rep.finish()
